@@ -129,7 +129,8 @@ def pScores (K : Nat) : P Cli.Scores := fun ts => do
 def fmtOfName : String → Option Cli.Fmt
   | "auto" => some .auto | "auto_extended" => some .autoExt | "conll" => some .conll
   | "ptb" => some .ptb | "deriv" => some .deriv | "ja" => some .ja
-  | "prolog_en" => some .prologEn | "prolog_ja" => some .prologJa | "json" => some .json | "html" => some .html | _ => none
+  | "prolog_en" => some .prologEn | "prolog_ja" => some .prologJa | "json" => some .json | "html" => some .html
+  | "xml" => some .xml | "jigg_xml_en" => some .jiggEn | "jigg_xml_ja" => some .jiggJa | _ => none
 
 def cliOp (seenOf : String → Option (Option (List (Cat × Cat)))) (unaryOf : String → Option (List (Cat × List Cat)))
     (ts : List String) : String :=
